@@ -492,8 +492,15 @@ def render(prog, attrs=None):
     if rst.get("derive"):
         # the context is derived from one that already has a reset: a second reset source (input xr) is OR-ed / AND-ed in
         dv = rst["derive"]
-        L.append(f"        base_ctx = std.sequential({', '.join(args)}{kw})")
-        L.append(f"        ctx = base_ctx.{dv['op']}_reset(self.xr, active_low={bool(dv['low'])})")
+        if dv["op"] == "replace":
+            # the base context has ANOTHER reset (pin xr; or none at all): with_params(reset=...) replaces it, the derived
+            # context is reset by rst alone, with the replacement's polarity and kind
+            bargs = [clk] + ([f"std.Reset(self.xr, active_low={bool(dv['low'])}, is_async={bool(dv.get('base_async'))})"] if dv.get("base") == "xr" else [])
+            L.append(f"        base_ctx = std.sequential({', '.join(bargs)}{kw})")
+            L.append(f"        ctx = base_ctx.with_params(reset={RESET_KINDS[prog['reset']['kind']]})")
+        else:
+            L.append(f"        base_ctx = std.sequential({', '.join(args)}{kw})")
+            L.append(f"        ctx = base_ctx.{dv['op']}_reset(self.xr, active_low={bool(dv['low'])})")
         L.append("        @ctx")
     else:
         L.append(f"        @std.sequential({', '.join(args)}{kw})")
